@@ -40,13 +40,14 @@ type clScenario struct {
 	Name      string   `json:"name"`
 	Nodes     int      `json:"nodes"`
 	Clients   int      `json:"clients"`
-	LoadMs    int      `json:"load_ms"`            // duration of the client load
-	MaxOps    int      `json:"max_ops,omitempty"`  // per client (0 = unbounded within LoadMs)
-	SnapCount int      `json:"snapcount"`          // VERIF_SNAPCOUNT for the nodes (0 = default 10000)
-	Classes   []string `json:"classes"`            // str ctr list set ledger
-	Faults    []string `json:"faults"`             // kill-follower kill-leader kill-all kill-minority lag-follower add-member del-member
-	Demo      string   `json:"demo,omitempty"`     // ttl | spop | xadd | listsnap | snaprestart | snaplag : minimal separate scenarios
+	LoadMs    int      `json:"load_ms"`           // duration of the client load
+	MaxOps    int      `json:"max_ops,omitempty"` // per client (0 = unbounded within LoadMs)
+	SnapCount int      `json:"snapcount"`         // VERIF_SNAPCOUNT for the nodes (0 = default 10000)
+	Classes   []string `json:"classes"`           // str ctr list set ledger
+	Faults    []string `json:"faults"`            // kill-follower kill-leader kill-all kill-minority lag-follower add-member del-member
+	Demo      string   `json:"demo,omitempty"`    // ttl | spop | xadd | listsnap | snaprestart | snaplag : minimal separate scenarios
 	OpTimeout int      `json:"op_timeout_ms,omitempty"`
+	ThinkMs   int      `json:"think_ms,omitempty"` // each client pauses 0..ThinkMs between commands
 }
 
 type clOp struct {
@@ -119,9 +120,25 @@ type cluster struct {
 
 var clAllPids sync.Map // pid -> true, for the signal handler
 
+// freePort hands out loopback ports. With VERIF_PORT_BASE=<b> (set by the orchestrator, a different block of 200 ports below the
+// ephemeral range for every harness process that runs at the same time) ports are taken in sequence from that block, so that
+// concurrent harness processes cannot pick the same port between the probe and the node's own bind.
+var (
+	portMu   sync.Mutex
+	portNext int
+)
+
 func freePort() int {
-	for {
-		l, err := net.Listen("tcp", "127.0.0.1:0")
+	base, _ := strconv.Atoi(os.Getenv("VERIF_PORT_BASE"))
+	for tries := 0; ; tries++ {
+		addr := "127.0.0.1:0"
+		if base > 1024 && tries < 400 {
+			portMu.Lock()
+			addr = fmt.Sprintf("127.0.0.1:%d", base+portNext%200)
+			portNext++
+			portMu.Unlock()
+		}
+		l, err := net.Listen("tcp", addr)
 		if err != nil {
 			continue
 		}
@@ -252,9 +269,7 @@ func tailFile(path string, lines, maxBytes int) string {
 	start := len(ls) - lines
 	for i, l := range ls {
 		if strings.HasPrefix(l, "panic:") || strings.HasPrefix(l, "fatal error:") || strings.Contains(l, "[signal ") {
-			if i-2 < start {
-				start = i - 2
-			}
+			start = i - 1
 			break
 		}
 	}
@@ -725,6 +740,11 @@ func runClusterScenario(bin, scratch string, seed int64, sc clScenario) (rep clR
 		}
 	}
 	if err := c.waitServing(c.nodes, 40*time.Second); err != nil {
+		c.diedMu.Lock()
+		for _, d := range c.died {
+			problem("node-died", "right after start: "+d)
+		}
+		c.diedMu.Unlock()
 		problem("start-failed", "the cluster does not serve requests after start: "+err.Error())
 		logTails()
 		return
@@ -811,6 +831,9 @@ func runClusterScenario(bin, scratch string, seed int64, sc clScenario) (rep clR
 						rc.c.Close()
 						rc = nil
 					}
+				}
+				if sc.ThinkMs > 0 {
+					time.Sleep(time.Duration(crng.Intn(sc.ThinkMs*1000+1)) * time.Microsecond)
 				}
 				if crng.Intn(40) == 0 {
 					rc.c.Close() // move to another node now and then
@@ -901,7 +924,7 @@ func runClusterScenario(bin, scratch string, seed int64, sc clScenario) (rep clR
 				c.kill(n)
 				note("SIGKILL follower %d (kept down across a snapshot)", n.id)
 				before := c.countLog("compacted log at index")
-				for w := 0; w < 100 && c.countLog("compacted log at index") < before+4; w++ {
+				for w := 0; w < 100 && sc.SnapCount > 0 && c.countLog("compacted log at index") < before+4; w++ {
 					time.Sleep(100 * time.Millisecond)
 				}
 				restart([]*clNode{n})
@@ -1418,6 +1441,32 @@ func runClusterDemo(c *cluster, sc clScenario, rep *clReport, problem func(kind,
 		v1, _ := c.readState(n1, "ctr", "s")
 		conclude(err4 != nil || v4 != v1, fmt.Sprintf("rconf add 4 %s -> %q; node 4 joined and served; %d x INCR ctr (VERIF_SNAPCOUNT=%d); SIGKILL all, restart all: GET ctr through node 1: %s, through node 4: %s (%v); nodes 1-3 log %d x \"failed to find remote peer in cluster\"",
 			c.peers[n4.id-1], strings.TrimSpace(out), 3*sc.SnapCount, sc.SnapCount, v1, v4, err4, c.countLog("failed to find remote peer in cluster")))
+	case "joint":
+		// informational: rconf proposes an EXPLICIT joint configuration change and nothing ever leaves the joint state, so a
+		// second membership change is refused by raft (safety is not affected; the cluster keeps committing)
+		n4, err := c.addNode(true)
+		if err == nil {
+			err = c.writeConfigs(n4, true)
+		}
+		if err != nil {
+			problem("start-failed", err.Error())
+			return
+		}
+		out1 := must(n1, "rconf", "add", strconv.Itoa(n4.id), c.peers[n4.id-1])
+		c.start(n4)
+		if err := c.waitServing([]*clNode{n4}, 30*time.Second); err != nil {
+			problem("unavailable", "new member: "+err.Error())
+			return
+		}
+		n4.mu.Lock()
+		n4.expected = true
+		n4.mu.Unlock()
+		out2 := must(n1, "rconf", "delete", strconv.Itoa(n4.id))
+		time.Sleep(3 * time.Second)
+		still := n4.isAlive()
+		refused := c.countLog("must transition out of joint config first") + c.countLog("possible unapplied conf change")
+		conclude(still, fmt.Sprintf("rconf add 4 -> %q; node 4 serves; rconf delete 4 -> %q; 3 s later node 4 still runs: %v; raft log lines refusing the change: %d; GET through node 1: %q",
+			strings.TrimSpace(out1), strings.TrimSpace(out2), still, refused, must(n1, "GET", "__barrier")))
 	default:
 		problem("start-failed", "unknown demo "+sc.Demo)
 	}
